@@ -26,6 +26,9 @@ type TypeMethod struct {
 
 	// Sig is the method's signature as seen by the type checker (nil for hand-built models)
 	Sig *types.Signature
+
+	// PkgPath qualifies an unexported method name (see InterfaceMethod.PkgPath)
+	PkgPath string
 }
 
 // MethodType represents a type in method signature
@@ -160,6 +163,7 @@ func extractMethodsFromNamedType(named *types.Named) []TypeMethod {
 			Outputs:           extractMethodTypesFromTuple(sig.Results(), false),
 			ReceiverIsPointer: recvIsPointer,
 			Sig:               sig,
+			PkgPath:           unexportedMethodPkg(method),
 		})
 	}
 
